@@ -306,7 +306,15 @@ func replayConfirms(c *candidate, out string) bool {
 	case "assert":
 		return strings.HasPrefix(out, "violation ")
 	case "panic":
-		return strings.HasPrefix(out, "panic ") || strings.HasPrefix(out, "crash")
+		if strings.HasPrefix(out, "crash") {
+			// a panic in another goroutine kills the native process: the runtime's message must be
+			// the one the executor predicted ("site: message")
+			if i := strings.LastIndex(c.Site, ": "); i >= 0 {
+				return strings.Contains(out, c.Site[i+2:])
+			}
+			return true
+		}
+		return strings.HasPrefix(out, "panic ")
 	case "deadlock":
 		return strings.HasPrefix(out, "timeout")
 	}
@@ -330,9 +338,10 @@ type replayFile struct {
 	Site    string      `json:"site,omitempty"`
 	Msg     string      `json:"msg,omitempty"`
 	Pkg     string      `json:"pkg,omitempty"`
+	Sched   []schedEv   `json:"sched,omitempty"`
 }
 
-func writeOverlayFiles(dir string) (string, error) {
+func writeOverlayFiles(dir string, sched bool) (string, error) {
 	// materialise generated rt/test files and build an overlay json for `go test -overlay`
 	ov, err := buildOverlay([]string{harnessRoot()})
 	if err != nil {
@@ -381,6 +390,24 @@ func writeOverlayFiles(dir string) (string, error) {
 	for k, v := range extra {
 		repl[k] = v
 	}
+	if sched {
+		// schedule replay: the gated copy of package service (generated from the current tree)
+		files, err := instrumentedService()
+		if err != nil {
+			return "", err
+		}
+		for name, src := range files {
+			text := string(src)
+			if _, clock := extra[name]; clock {
+				text = strings.ReplaceAll(text, "time.Now()", "vrtNow()")
+			}
+			real := filepath.Join(gen, "sched_"+filepath.Base(name))
+			if err := os.WriteFile(real, []byte(text), 0o644); err != nil {
+				return "", err
+			}
+			repl[name] = real
+		}
+	}
 	ovPath := filepath.Join(dir, "overlay.json")
 	data, _ := json.MarshalIndent(map[string]interface{}{"Replace": repl}, "", " ")
 	return ovPath, os.WriteFile(ovPath, data, 0o644)
@@ -398,7 +425,7 @@ func (rp *replayer) replay(pkg string, c *candidate) (string, string) {
 	rp.n++
 	dir := filepath.Join(rp.root, strconv.Itoa(rp.n))
 	os.MkdirAll(dir, 0o755)
-	rf := replayFile{Harness: c.Harness, Tier: rp.tier, Inputs: c.Inputs, Kind: c.Kind, Site: c.Site, Msg: c.Msg, Pkg: pkg}
+	rf := replayFile{Harness: c.Harness, Tier: rp.tier, Inputs: c.Inputs, Kind: c.Kind, Site: c.Site, Msg: c.Msg, Pkg: pkg, Sched: c.Sched}
 	data, _ := json.MarshalIndent(rf, "", " ")
 	inPath := filepath.Join(dir, "input.json")
 	os.WriteFile(inPath, data, 0o644)
@@ -407,7 +434,16 @@ func (rp *replayer) replay(pkg string, c *candidate) (string, string) {
 }
 
 // replayDir replays dir/input.json natively and returns the result text ("violation …", "panic …", "ok", …).
+// A schedule replay that reports having left the recorded schedule is tried again (3 attempts).
 func replayDir(dir string) string {
+	res := replayDirOnce(dir)
+	for a := 0; a < 2 && (strings.HasPrefix(res, "divergence goroutine") || strings.HasPrefix(res, "divergence harness_waited")); a++ {
+		res = replayDirOnce(dir)
+	}
+	return res
+}
+
+func replayDirOnce(dir string) string {
 	data, err := os.ReadFile(filepath.Join(dir, "input.json"))
 	if err != nil {
 		return "error " + err.Error()
@@ -416,7 +452,7 @@ func replayDir(dir string) string {
 	if err := json.Unmarshal(data, &rf); err != nil {
 		return "error " + err.Error()
 	}
-	ovPath, err := writeOverlayFiles(dir)
+	ovPath, err := writeOverlayFiles(dir, len(rf.Sched) > 0)
 	if err != nil {
 		return "error " + err.Error()
 	}
@@ -466,25 +502,63 @@ func (rp *replayer) validateWitnesses(pkg string, ws []*candidate) (ok, bad int,
 	wdir := filepath.Join(dir, "inputs")
 	os.MkdirAll(wdir, 0o755)
 	for i, w := range ws {
-		rf := replayFile{Harness: w.Harness, Tier: rp.tier, Inputs: w.Inputs, Kind: "witness", Pkg: pkg}
+		rf := replayFile{Harness: w.Harness, Tier: rp.tier, Inputs: w.Inputs, Kind: "witness", Pkg: pkg, Sched: w.Sched}
 		data, _ := json.Marshal(rf)
 		os.WriteFile(filepath.Join(wdir, fmt.Sprintf("w%04d.json", i)), data, 0o644)
 	}
-	ovPath, err := writeOverlayFiles(dir)
+	sched := false
+	for _, w := range ws {
+		sched = sched || len(w.Sched) > 0
+	}
+	ovPath, err := writeOverlayFiles(dir, sched)
 	if err != nil {
 		return 0, len(ws), err.Error()
 	}
-	out := runGoTest(pkg, ovPath, wdir, 300)
 	got := map[string]string{}
-	sc := bufio.NewScanner(strings.NewReader(out))
-	sc.Buffer(make([]byte, 1<<20), 1<<26)
-	for sc.Scan() {
-		line := sc.Text()
-		if strings.HasPrefix(line, "VRT-RESULT file=") {
-			f := strings.SplitN(line, " ", 3)
-			if len(f) == 3 {
-				got[strings.TrimPrefix(f[1], "file=")] = f[2]
+	out := ""
+	expectOf := func(w *candidate) string {
+		var want []string
+		for _, o := range w.Observed {
+			want = append(want, o.Label+"="+o.Hex)
+		}
+		return "ok obs=" + strings.Join(want, ",")
+	}
+	// schedule replays depend on the native runtime honouring the recorded order at every gate; the
+	// few things the gates do not control (map iteration order, socket timing) can make a replay
+	// leave the schedule, which it reports as "divergence": those are replayed again (3 attempts)
+	attempts := 1
+	if sched {
+		attempts = 3
+	}
+	target := wdir
+	for a := 0; a < attempts; a++ {
+		out = runGoTest(pkg, ovPath, target, 300)
+		sc := bufio.NewScanner(strings.NewReader(out))
+		sc.Buffer(make([]byte, 1<<20), 1<<26)
+		for sc.Scan() {
+			line := sc.Text()
+			if strings.HasPrefix(line, "VRT-RESULT file=") {
+				f := strings.SplitN(line, " ", 3)
+				if len(f) == 3 {
+					got[strings.TrimPrefix(f[1], "file=")] = f[2]
+				}
 			}
+		}
+		var again []string
+		for i, w := range ws {
+			name := fmt.Sprintf("w%04d.json", i)
+			if r, has := got[name]; has && r != expectOf(w) && strings.HasPrefix(r, "divergence") {
+				again = append(again, name)
+			}
+		}
+		if len(again) == 0 || a == attempts-1 {
+			break
+		}
+		target = filepath.Join(dir, fmt.Sprintf("retry%d", a))
+		os.MkdirAll(target, 0o755)
+		for _, name := range again {
+			data, _ := os.ReadFile(filepath.Join(wdir, name))
+			os.WriteFile(filepath.Join(target, name), data, 0o644)
 		}
 	}
 	for i, w := range ws {
